@@ -121,24 +121,36 @@ def liveness_part(ctx, observations, stats):
     outs = []
     n_shards = 3 if ctx.tier == "quick" else 8
     import concurrent.futures as cf
-    chunks = [list(range(i, len(exprs), n_shards)) for i in range(n_shards)]
+    # thorough: interleaved chunks, more chunks than workers; a chunk not started LIVE_DEADLINE seconds into the run is
+    # dropped (= a uniform sample of the tables; counted as live_skipped_budget) so that a loaded machine keeps the tier budget
+    n_chunks = n_shards if ctx.tier == "quick" else 32
+    chunks = [list(range(i, len(exprs), n_chunks)) for i in range(n_chunks)]
+    deadline = getattr(ctx, "t0", time.time()) + (10 ** 9 if ctx.tier == "quick" else LIVE_DEADLINE)
 
     def run(idx):
         if not idx:
             return []
+        if time.time() > deadline:
+            return None
         imp = "From Verif Require Import Base.Word256 C14.Venom C14.Liveness.\n" + "\n".join(defs[i] for i in idx) + "\n"
         return coqrun.eval_zlists(imp, [exprs[i] for i in idx], f"c14live_{idx[0]}", shard=10 ** 9, timeout=900)
     with cf.ThreadPoolExecutor(max_workers=n_shards) as ex:
         parts = list(ex.map(run, chunks))
     res = {}
+    skipped = set()
     for idx, part in zip(chunks, parts):
+        if part is None:
+            skipped |= set(idx)
+            continue
         for i, o in zip(idx, part):
             res[i] = o[0]
-    stats["live_checked"] = len(exprs)
+    if skipped:
+        stats["live_skipped_budget"] = len(skipped)
+    stats["live_checked"] = len(exprs) - len(skipped)
     stats["live_accepted"] = sum(1 for v in res.values() if v == 1)
     stats["live_codegen"] = sum(1 for (o, _) in exported if o["phase"] == "codegen")
     for i, (o, fn) in enumerate(exported):
-        if res.get(i) == 1:
+        if res.get(i) == 1 or i in skipped:
             continue
         # Search: is a truly live variable missing from the real table?
         before, after_last = true_liveness(fn)
@@ -175,6 +187,11 @@ def liveness_part(ctx, observations, stats):
 
 # ------------------------------------------------------------------------------------------------ pass validators
 STATIC_ALL = ["C14/VenomSim.v", "C14/ValRUV.v", "C14/ValDFT.v", "C14/ValCopy.v", "C14/Liveness.v"]
+# thorough tier: seconds into the run after which validator jobs / liveness chunks that have not started are dropped
+# (counted as val_skipped_budget / live_skipped_budget); an idle machine finishes everything well before
+VAL_DEADLINE = 1250
+LIVE_DEADLINE = 1500
+
 PASS_VALIDATOR = {"RemoveUnusedVariablesPass": "ruv", "AssignElimination": "copy", "SingleUseExpansion": "copy", "DFTPass": "dft"}
 THEOREM = {"ruv": "ruv_fn_sim + validators_compose", "copy": "copy_fn_sim + validators_compose", "dft": "cdft_fn_sim + validators_compose"}
 
@@ -373,8 +390,14 @@ def validators_part(ctx, progs, stats):
         if exprs:
             jobs.append((gk, defs, exprs, meta))
 
+    deadline = getattr(ctx, "t0", time.time()) + (10 ** 9 if quick else VAL_DEADLINE)
+    if not quick:
+        rnd.shuffle(jobs)        # what the deadline drops is a seeded random subset
+
     def run(job):
         gk, defs, exprs, meta = job
+        if time.time() > deadline:
+            return "skipped", None
         imp = ("From Verif Require Import Base.Word256 C14.Venom C14.VenomSim C14.ValRUV C14.ValDFT C14.ValCopy C14.VenomCall C14.ValCall.\n"
                + "".join(f"Definition f_{h} : func := {t}.\n" for h, t in defs.items()))
         tag = "c14val_" + X.text_hash("|".join(map(str, gk)))
@@ -390,6 +413,9 @@ def validators_part(ctx, progs, stats):
     for (gk, defs, exprs, meta), (outs, err) in zip(jobs, results):
         if err is not None:
             ctx.violation("correspondence-broken", f"Coq evaluation of the pass validators failed for {gk}", {"error": err})
+            continue
+        if outs == "skipped":
+            stats["val_skipped_budget"] = stats.get("val_skipped_budget", 0) + len(exprs)
             continue
         for (s, kind, fb, fa), o in zip(meta, outs):
             n += 1
